@@ -748,6 +748,10 @@ func goCode(root string, unit string) string {
 		header("Model.GoSem", "Model.GoJson", "Model.GoSlices", "Model.Pub", "Model.GoPub", "Generated.GoObject")
 		text, errs := translateListing(root)
 		emit("pub/actor.go, pub/post.go, pub/common.go (the listing filters: which entry is shown as itself, which as an error item)", text, errs)
+	case "gemtext":
+		header("Model.GoSem", "Model.GoText", "Model.GoStrings", "Model.Style", "Generated.GoAnsih", "Generated.GoStyle")
+		text, errs := translateGemtext(root)
+		emit("gemtext/gemtext.go, plaintext/plaintext.go (the Markup struct, NewMarkup, Render, renderWithLinks)", text, errs)
 	default:
 		b.WriteString("-- unknown unit " + unit + "\n")
 	}
